@@ -47,7 +47,9 @@ class Taint:
             t = P.call_term(ru)
             if callee_is(t, 'Stream::poll_next', 'poll_next_unpin') and 'Fuse<' in (t.get('self_ty') or ''):
                 return 'item read from the transport'
-            if callee_is(t, 'Deserialize::deserialize', 'DeserializeSeed::deserialize', 'SeqAccess::next_element', 'MapAccess::next_value'):
+            if callee_is(t, 'Deserialize::deserialize', 'DeserializeSeed::deserialize', 'SeqAccess::next_element', 'MapAccess::next_value', 'SeqAccess::next_element_seed',
+                         'MapAccess::next_value_seed', 'MapAccess::next_key', 'EnumAccess::variant', 'VariantAccess::newtype_variant', 'VariantAccess::struct_variant',
+                         'VariantAccess::tuple_variant') or (t.get('trait') or '').endswith('Deserializer'):
                 return 'decoded value'
             if callee_is(t, 'mpsc::Receiver::poll_recv') and 'DispatchRequest' in str(t.get('arg_tys')):
                 return 'request queued by a local caller (carries the caller\'s context)'
